@@ -38,6 +38,13 @@ pub trait WitnessWrite<F: Field> {
     where
         F: RichField,
     {
+        if ct.0.len() != value.0.len() {
+            return Err(anyhow!(
+                "Merkle cap has {} entries but the cap target has {}",
+                value.0.len(),
+                ct.0.len()
+            ));
+        }
         for (ht, h) in ct.0.iter().zip(&value.0) {
             self.set_hash_target(*ht, *h)?;
         }
@@ -72,7 +79,13 @@ pub trait WitnessWrite<F: Field> {
     where
         F: RichField + Extendable<D>,
     {
-        debug_assert_eq!(ets.len(), values.len());
+        if ets.len() != values.len() {
+            return Err(anyhow!(
+                "{} extension values given for {} extension targets",
+                values.len(),
+                ets.len()
+            ));
+        }
         for (&et, &v) in zip(ets, values) {
             self.set_extension_target(et, v)?;
         }
